@@ -138,6 +138,9 @@ static bool the_callback(const char *filename, const void *data)
   int ok = 1;
   for (int i = 0; i < n_reject; i++) if (!strcmp(reject[i], virt(filename))) ok = 0;
   if (n_check < 256) { check_log[n_check] = strdup(filename); check_ok[n_check++] = ok; }
+  /* what a callback leaves in errno says nothing about the file: every second verdict comes with ENOENT set
+     (as after a look-up of a companion file that does not exist), the others with errno cleared */
+  errno = (n_check & 1) ? ENOENT : 0;
   return ok;
 }
 
@@ -537,7 +540,9 @@ static void run_stream(FILE *in)
       char *p = dec(t[1]); char *real = vpath(p);
       mkparents(real);
       int ui = c[2] == 'd' ? 2 : 3;
-      if (c[2] == 'f') { char *content = dec(t[2]); FILE *f = __real_fopen(real, "wb"); fwrite(content, 1, declen(t[2]), f); fclose(f); free(content); }
+      if (c[2] == 'f') { char *content = dec(t[2]); FILE *f = __real_fopen(real, "wb");
+                         if (!f) { printf("driver-error cannot create %s\n", real); exit(3); }
+                         fwrite(content, 1, declen(t[2]), f); fclose(f); free(content); }
       else if (c[2] == 'l') { char *tg = dec(t[2]); char *rt = (tg[0] == '/' && strcmp(tg, "/dev/null")) ? vpath(tg) : strdup(tg); unlink(real); if (symlink(rt, real)) perror("symlink"); free(tg); free(rt); }
       else mkdir(real, 0755);
       if (lchown(real, (uid_t) atoi(t[ui]), (gid_t) atoi(t[ui + 1]))) perror("lchown");
@@ -625,6 +630,40 @@ static void run_stream(FILE *in)
       if (e == ECONF_SUCCESS) { for (size_t i = 0; i < n; i++) { printf(" || "); dump_inline(files[i]); econf_free(files[i]); } free(files); }
       else if (files) printf(" HISTORY-POINTER-SET-ON-ERROR");
       putchar('\n');
+      free(d1); free(d2); free(name); free(sfx); argfree(dl); argfree(cm);
+    } else if (!strcmp(c, "histmerge")) {
+      /* the caller merges the history itself, left to right, with the public econf_mergeFiles */
+      char *d1 = vdir(t[1]), *d2 = vdir(t[2]), *name = dec(t[3]), *sfx = dec(t[4]), *dl = argstr(t[5], dlbuf), *cm = argstr(t[6], cmbuf);
+      econf_file **files = NULL; size_t n = 0;
+      econf_err e = cb_mode ? econf_readDirsHistoryWithCallback(&files, &n, d1, d2, name, sfx, dl, cm, the_callback, &cb_data_token)
+                            : econf_readDirsHistory(&files, &n, d1, d2, name, sfx, dl, cm);
+      if (e != ECONF_SUCCESS) printf("rc=%d\n", e);
+      else {
+        econf_file *cur = files[0]; int own = 0;
+        for (size_t i = 1; i < n; i++) {
+          int masked = 0;
+          char *a = econf_getPath(files[i]); const char *ba = strrchr(a, '/'); ba = ba ? ba + 1 : a;
+          if (strcmp(ba, ".") && strcmp(ba, ".."))
+            for (size_t j = i + 1; j < n && !masked; j++) {
+              char *b = econf_getPath(files[j]); const char *bb = strrchr(b, '/'); bb = bb ? bb + 1 : b;
+              if (!strcmp(ba, bb)) masked = 1;
+              free(b);
+            }
+          free(a);
+          if (masked) continue;
+          econf_file *m = NULL;
+          econf_err me = econf_mergeFiles(&m, cur, files[i]);
+          if (me != ECONF_SUCCESS) { printf("driver-note merge failed %d ", me); break; }
+          if (own) econf_free(cur);
+          cur = m; own = 1;
+        }
+        printf("rc=0 n=%zu merged=", n); dump_inline(cur);
+        for (size_t i = 0; i < n; i++) { printf(" || "); dump_inline(files[i]); }
+        putchar('\n');
+        if (own) econf_free(cur);
+        for (size_t i = 0; i < n; i++) econf_free(files[i]);
+        free(files);
+      }
       free(d1); free(d2); free(name); free(sfx); argfree(dl); argfree(cm);
     } else if (!strcmp(c, "errloc")) {
       char *fn = NULL; uint64_t ln = 0; econf_errLocation(&fn, &ln);
